@@ -129,7 +129,7 @@ func kindCoq(k string) string {
 }
 
 func systemCase(g *gen, dist map[string]int) (string, []map[string]string, error) {
-	nathole.NatHoleTimeout = 0
+	nathole.NatHoleTimeout = nhTimeout
 	srv, err := hx.StartServer(sysAddr, nil)
 	if err != nil {
 		return "", nil, err
@@ -215,8 +215,11 @@ func systemCase(g *gen, dist map[string]int) (string, []map[string]string, error
 			if s.closed {
 				continue
 			}
-			kind := []string{"stcp", "stcp", "sudp", "xtcp", "xtcp"}[g.Intn(5)]
+			kind := []string{"stcp", "stcp", "sudp", "sudp", "xtcp", "xtcp"}[g.Intn(6)]
 			name, sk, allow := g.Pick(namePool), g.sk(), g.allow()
+			if g.Chance(0.3) {
+				allow = nil // the default: only the owner's user
+			}
 			pue, puc := g.Chance(0.5), g.Chance(0.5)
 			if err := s.p.Send(&msg.NewProxy{ProxyName: name, ProxyType: kind, Sk: sk, AllowUsers: allow,
 				UseEncryption: pue, UseCompression: puc}); err != nil {
@@ -306,8 +309,8 @@ func systemCase(g *gen, dist map[string]int) (string, []map[string]string, error
 			// whose run id the message carries
 			rid, ridKind := "", "empty"
 			switch x := g.Intn(10); {
-			case x < 1:
 			case x < 2:
+			case x < 3:
 				rid, ridKind = "no-such-run-id", "unknown"
 			default:
 				var cand []*sess
@@ -472,7 +475,7 @@ func systemCase(g *gen, dist map[string]int) (string, []map[string]string, error
 			if !notified && after != before {
 				others++
 			}
-			opText := fmt.Sprintf("SNatHole %s %s %s %s %s %s", hx.HxS(vs.p.RunID), hx.HxS(name), hx.Z(ts), hx.HxS(sign), hx.Bool(pre), hx.HxS(sid))
+			opText := fmt.Sprintf("SNatHole %s %s %s %s %s %s true", hx.HxS(vs.p.RunID), hx.HxS(name), hx.Z(ts), hx.HxS(sign), hx.Bool(pre), hx.HxS(sid))
 			ops = append(ops, opText)
 			obs = append(obs, obsNh(resp, notified, ownerName, sid, others, -1, -1))
 			dist[fmt.Sprintf("sys-nathole:pre=%v:resp=%d:notified=%v", pre, resp, notified)]++
